@@ -146,7 +146,45 @@ pub struct SchedCase {
 }
 
 thread_local! {
-    static LAST_RECORDED: std::cell::RefCell<Option<Vec<u64>>> = const { std::cell::RefCell::new(None) };
+    pub static LAST_RECORDED: std::cell::RefCell<Option<Vec<u64>>> = const { std::cell::RefCell::new(None) };
+}
+
+/// Schedule minimisation shared by the workloads whose cases carry `(threads, Sim)` variants:
+/// with one variant left, record its decision list (`record` executes the case with recording on
+/// and returns the list of the last simulated process), then cut the list by bisection to the
+/// shortest prefix for which `fails` still holds.
+pub fn minimise_schedule<C: Clone>(
+    c: &C,
+    sim_of: impl Fn(&mut C) -> Option<&mut Sim>,
+    record: impl Fn(&C) -> Option<Vec<u64>>,
+    fails: impl Fn(&C) -> bool,
+) -> C {
+    std::env::set_var("SKASIM_RECORD_ALL", "1");
+    let rec = record(c);
+    std::env::remove_var("SKASIM_RECORD_ALL");
+    let Some(full) = rec else { return c.clone() };
+    let with = |d: Vec<u64>| -> Option<C> {
+        let mut x = c.clone();
+        sim_of(&mut x)?.decisions = Some(d);
+        Some(x)
+    };
+    let Some(all) = with(full.clone()) else { return c.clone() };
+    if !fails(&all) {
+        return c.clone();
+    }
+    let (mut lo, mut hi) = (0usize, full.len());
+    while lo < hi {
+        let mid = (lo + hi) / 2;
+        if with(full[..mid].to_vec()).map(|x| fails(&x)).unwrap_or(false) {
+            hi = mid;
+        } else {
+            lo = mid + 1;
+        }
+    }
+    match with(full[..hi].to_vec()) {
+        Some(best) if fails(&best) => best,
+        _ => all,
+    }
 }
 
 pub struct SchedWorkload {
